@@ -268,7 +268,7 @@ def gen_cases(rng, tier):
     mult = {"quick": 1, "thorough": 8, "search": 2}[tier]
     plan = [("loc", "biweight_location", 300, 60), ("loc", "modal_location", 150, 120), ("loc", "weighted_median", 1200, 400),
             ("scale", "mad", 250, 400), ("scale", "iqr", 250, 400), ("scale", "gapper", 250, 400), ("scale", "qn", 120, 40),
-            ("scale", "bivar", 120, 24), ("scale", "wmad", 500, 400), ("scale", "wstd", 250, 400),
+            ("scale", "bivar", 60, 16), ("scale", "wmad", 500, 400), ("scale", "wstd", 250, 400),
             ("smooth", "rolling_median", 350, 400), ("smooth", "kaiser", 250, 400), ("smooth", "savgol", 250, 400),
             ("smooth", "savgol_w", 200, 200)]
     cases = []
@@ -280,14 +280,17 @@ def gen_cases(rng, tier):
                 cases.append(scale_case(rng, name, nmax))
             else:
                 cases.append(smooth_case(rng, name, nmax))
-    # a few full-size vectors for the expensive estimators
-    for name, nn in (("biweight_location", 400), ("qn", 150), ("bivar", 200)):
-        for _ in range(2 * mult if tier != "quick" else 1):
-            a, ex = gen_vec(rng, nn, "float")
-            if name == "biweight_location":
-                cases.append({"op": "loc", "tag": name + "-big", "in": {"name": name, "a": a, "c": 1.0, "exact": False}})
-            else:
-                cases.append({"op": "scale", "tag": name + "-big", "in": {"name": name, "a": a, "c": 1.0, "k": 2.0, "exact": False}})
+    # a few full-size vectors for the expensive estimators (exact biweight iterations on 400 doubles take minutes:
+    # the long vectors are put on a coarse dyadic grid)
+    big = [("biweight_location", 400), ("qn", 150)] + ([("qn", 400), ("bivar", 120)] if tier == "thorough" else [])
+    for name, nn in big:
+        a, _ex = gen_vec(rng, nn, "float")
+        if name in ("biweight_location", "bivar"):
+            a = [round(v * 16) / 16 for v in a]
+        if name == "biweight_location":
+            cases.append({"op": "loc", "tag": name + "-big", "in": {"name": name, "a": a, "c": 1.0, "exact": False}})
+        else:
+            cases.append({"op": "scale", "tag": name + "-big", "in": {"name": name, "a": a, "c": 1.0, "k": 2.0, "exact": False}})
     # malformed stream: unequal lengths, zero total weight
     for _ in range(20 * mult):
         n = rng.randint(1, 6)
